@@ -247,7 +247,24 @@ def replay_validator_probe(which: str = ""):
             ok, _ = v(os.path.join(sb, "sub", "new.oct.md"))
             if not ok:
                 bad.append(f"{name} refuses a plain path")
-        return bool(bad), "; ".join(bad[:3]) or "probe: the validators refuse '..', every symlink kind and bad extensions"
+            # the same paths given RELATIVE to a working directory inside the sandbox (and one level down)
+            here = os.getcwd()
+            try:
+                for cwd, prefix in ((sb, ""), (os.path.join(sb, "sub"), "../")):
+                    os.chdir(cwd)
+                    for rel in ("dirlink/x.oct.md", "filelink.oct.md", "dangling.oct.md", "danglingdir/x.oct.md", "inlink/ok.oct.md", "sub/dirlink/x.oct.md"):
+                        if prefix:
+                            continue  # '..' is refused outright; only the sandbox-rooted spelling is meaningful there
+                        ok, _ = v(rel)
+                        if ok:
+                            bad.append(f"{name} accepts the relative path {rel} (cwd = sandbox)")
+                    if cwd.endswith("sub"):
+                        ok, _ = v("dirlink/x.oct.md")
+                        if ok:
+                            bad.append(f"{name} accepts the relative path dirlink/x.oct.md (cwd = sandbox/sub)")
+            finally:
+                os.chdir(here)
+        return bool(bad), "; ".join(bad[:3]) or "probe: the validators refuse '..', every symlink kind (absolute and relative spelling) and bad extensions"
 
     return _with_tree(run)
 
